@@ -167,7 +167,12 @@ def run_generators(binp, prop, outdir, seed, tier, extra_env=None):
     if extra_env:
         env.update(extra_env)
     os.makedirs(outdir, exist_ok=True)
-    pat = '^(' + '|'.join(prop['tests']) + ')$'
+    tests = list(prop['tests'])
+    if glob.glob(os.path.join(VERIF, 'corpus', prop['id'], '*.case')):
+        tests.append('TestCorpus')
+        env['VERIF_PROP'] = prop['id']
+        env['VERIF_CORPUS'] = os.path.join(VERIF, 'corpus')
+    pat = '^(' + '|'.join(tests) + ')$'
     to = prop.get('timeout', {}).get(tier, 600 if tier == 'quick' else 7200)
     rc, out = run([binp, '-test.run', pat, '-test.timeout', '%ds' % to, '-test.count', '1'], to + 30, cwd=outdir, env=env)
     return rc, out
@@ -292,7 +297,7 @@ def main():
             i += 1
         i += 1
     seed = int(os.environ.get('VERIF_SEED', '1'))
-    prop = PROPS[pid]
+    prop = dict(PROPS[pid], id=pid)
     t0 = time.time()
     os.makedirs(os.path.join(VERIF, 'evidence'), exist_ok=True)
     evp = os.path.join(VERIF, 'evidence', pid + '.json')
